@@ -91,6 +91,8 @@ type Engine struct {
 	decls      []string
 	declared   map[string]bool
 	sortDecls  []string
+	tidTypes   map[int]types.Type
+	ifaceTypes map[string]types.Type
 	sortDone   map[string]string
 	sortByType map[string]string
 	assumes    []string
